@@ -20,6 +20,8 @@ structure SpecW where
   issued : List Entity := []
   /-- ids named by an id-targeted spawn since the last `clear` -/
   targeted : List Nat := []
+  /-- ghost for C17: archetype generations observed so far with the archetype sets they stood for -/
+  gens : List (Nat × String) := []
   deriving Repr, Inhabited
 
 namespace SpecW
@@ -186,7 +188,7 @@ def apply (s : SpecW) (op : Op) (res : Res) (dropped : List Comp) : Except Strin
   | .clear => do
     check (res == .ok) "clear"
     check (sameComps dropped (s.live.flatMap (·.2))) "clear must drop every stored component"
-    pure {}
+    pure { gens := s.gens }
   | .flush => do
     check (res == .ok && dropped == []) "flush"
     pure s.flush
